@@ -222,8 +222,9 @@ class PreAggregationMatcher:
             # (would need HyperLogLog or storing exact values)
             return False
 
-        # Default: allow if present
-        return True
+        # Other aggregations (median, stddev, variance, ...) cannot be recomputed
+        # from per-bucket values
+        return False
 
     def _find_count_measure_for_avg(self, avg_metric: Metric, preagg_measures: list[str]) -> str | None:
         """Find the appropriate count measure for an AVG metric.
